@@ -30,7 +30,7 @@ pub fn run(args: &Args, rep: &mut Report) {
     };
     let dir = format!("{}/cl-{}-{}", scratch, std::process::id(), args.shard);
     std::fs::create_dir_all(&dir).unwrap();
-    let narch = args.get_u64("n", if thorough { 320 } else { 16 });
+    let narch = args.get_u64("n", if thorough { 200 } else { 16 });
     let only: Option<u64> = args.case.as_ref().and_then(|c| c.parse().ok());
     let mut exit_codes: HashMap<String, u64> = HashMap::new();
     for i in 0..narch {
